@@ -160,9 +160,14 @@ func vfHex(data []byte, prefix bool, upper bool) []byte {
 	return out
 }
 
-var vfFramingShapes = []string{"Point", "MultiPoint[2]", "LineString[2]", "LineString{}", "Polygon[[3]]", "MultiLineString[[1],[2]]", "Collection[LineString{},Point]", "MultiPolygon[[[3]]]"}
+var vfFramingShapes = []string{"Point", "MultiPoint[2]", "LineString[2]", "LineString{}", "Collection[LineString{},Point]", "Polygon[[3]]", "MultiLineString[[1],[2]]", "MultiPolygon[[[3]]]"}
 
-func vfC01Framing_N(tier int) int { return len(vfFramingShapes) * 2 * 2 * 3 }
+func vfC01Framing_N(tier int) int {
+	if tier == 0 {
+		return 5 * 12
+	}
+	return len(vfFramingShapes) * 12
+}
 func vfC01Framing_Label(c int) string {
 	return vfFramingShapes[c/12] + " order=" + []string{"LE", "BE"}[c%2] + " srid=" + []string{"absent", "symbolic"}[(c/2)%2] + " framing=" + []string{"hex", "\\x-hex", "HEX"}[(c/4)%3]
 }
@@ -194,7 +199,38 @@ func vfC01Framing(c int) {
 
 // ---- typed destinations: documented coercions, wrong-geometry error otherwise ----
 
-var vfDestNames = []string{"*Point", "*MultiPoint", "*LineString", "*MultiLineString", "*Ring", "*Polygon", "*MultiPolygon", "*Collection", "*Bound"}
+var vfDestNames = []string{"*Point", "*MultiPoint", "*LineString", "*MultiLineString", "*Ring", "*Polygon", "*MultiPolygon", "*Collection"}
+
+// the *Bound destination runs float comparisons on every vertex: small shapes in the quick tier
+var vfBoundDestShapes = []string{"Point", "MultiPoint{}", "MultiPoint[1]", "MultiPoint[2]", "LineString[2]", "LineString{}", "MultiLineString[[0],[2]]", "Polygon{}", "Polygon[[0]]", "Bound", "Collection[Point]", "Collection{}", "Collection[LineString{},Point]",
+	"Ring[3]", "Polygon[[3]]", "MultiLineString[[1],[2]]", "MultiPolygon[{},[[3]]]", "Collection[LineString[2],Polygon[[3]]]", "Collection[Collection[Point],Bound]", "MultiPolygon[[[3]],{}]"}
+
+func vfC01ScanBound_N(tier int) int {
+	if tier == 0 {
+		return 13
+	}
+	return len(vfBoundDestShapes)
+}
+func vfC01ScanBound_Label(c int) string { return vfBoundDestShapes[c] + " into *Bound" }
+
+func vfC01ScanBound(c int) {
+	g := vfShapeByName(vfBoundDestShapes[c]).mk(&vfGen{mode: 1})
+	srid := vfSrid(1)
+	data, err := Marshal(g, srid)
+	vfAssert("marshal-no-error", err == nil)
+	want := vfNormal(g)
+	var b orb.Bound
+	got, s, ok, err := Scan(&b, data)
+	vfReach("bound-dest")
+	vfAssert("bound-dest-no-error", err == nil)
+	vfAssert("bound-dest-valid", ok)
+	vfAssert("bound-dest-srid", s == srid)
+	wb := want.Bound()
+	gb, isB := got.(orb.Bound)
+	vfAssert("bound-dest-kind", isB)
+	vfBitEqual("bound-dest-value", gb, wb)
+	vfBitEqual("bound-dest-stored", b, wb)
+}
 
 func vfC01ScanTyped_N(tier int) int { return vfWkbShapeCount(tier) * len(vfDestNames) }
 func vfC01ScanTyped_Label(c int) string {
@@ -285,7 +321,6 @@ func vfC01ScanTyped(c int) {
 	var pg orb.Polygon
 	var mpg orb.MultiPolygon
 	var col orb.Collection
-	var b orb.Bound
 	var d interface{}
 	switch dest {
 	case 0:
@@ -304,21 +339,9 @@ func vfC01ScanTyped(c int) {
 		d = &mpg
 	case 7:
 		d = &col
-	case 8:
-		d = &b
 	}
 	got, s, ok, err := Scan(d, data)
 	vfReach("typed")
-	if dest == 8 {
-		vfAssert("bound-dest-no-error", err == nil)
-		vfAssert("bound-dest-srid", s == srid)
-		wb := want.Bound()
-		gb, isB := got.(orb.Bound)
-		vfAssert("bound-dest-kind", isB)
-		vfBitEqual("bound-dest-value", gb, wb)
-		vfBitEqual("bound-dest-stored", b, wb)
-		return
-	}
 	exp, coercible := vfCoerce(dest, want)
 	if !coercible {
 		vfAssert("typed-mismatch-error", err == ErrIncorrectGeometry)
